@@ -97,7 +97,7 @@ def generate(rng, tier):
         cases.append({'kind': 'parse', 'spec': ''.join(rng.choice(alpha) for _ in range(rng.randint(0, 7)))})
     for _ in range(400 if tier == 'quick' else 6000):
         mols = gen_sys(rng)
-        cases.append({'kind': 'sys', 'mols': mols, 'reqs': gen_requests(rng, mols)})
+        cases.append({'kind': 'sys', 'mols': mols, 'reqs': gen_requests(rng, mols), 'warm': rng.random() < 0.4})
     return cases
 
 
@@ -165,6 +165,21 @@ def run_impl(inp):
             return {'residues': residues_out, 'parse_error': True}
         parsed = [[p.get('chain'), p.get('resname'), p.get('resid')] for p, _ in proc.modifications] + \
                  [[p.get('chain'), p.get('resname'), p.get('resid')] for p, _ in proc.mutations]
+        if inp.get('warm'):
+            # the same processor object has been used before, on another system in which every request finds a residue:
+            # what it reports for THIS system may not depend on that
+            other = vermouth.system.System(force_field=ff)
+            extra = vermouth.molecule.Molecule(force_field=ff)
+            for i, (p, _) in enumerate(list(proc.modifications) + list(proc.mutations)):
+                extra.add_node(i, chain=p.get('chain') or 'A', resid=p.get('resid') or (500 + i), resname=p.get('resname') or 'ALA',
+                               insertion_code='', atomname='X')
+            other.add_molecule(extra)
+            lg.removeHandler(handler)
+            try:
+                proc.run_system(other)
+            except NameError:
+                pass
+            lg.addHandler(handler)
         try:
             proc.run_system(system)
         except NameError:
@@ -244,7 +259,7 @@ def nontrivial(inp, out):
 def describe(inp, out):
     if inp['kind'] == 'parse':
         return {'kind': 'parse', 'parse_ok': out['ok']}
-    return {'kind': 'sys', 'n_mols': len(inp['mols']), 'n_reqs': len(inp['reqs']), 'error': out.get('error', 'parse' if out.get('parse_error') else 'none'),
+    return {'kind': 'sys', 'processor_used_before': bool(inp.get('warm')), 'n_mols': len(inp['mols']), 'n_reqs': len(inp['reqs']), 'error': out.get('error', 'parse' if out.get('parse_error') else 'none'),
             'n_reported': len(out.get('reported_msgs', [])), 'any_marked': any(l for mm in out.get('marks', []) for _, l in mm),
             'terminal_request': any(q['spec'].endswith('ter') for q in inp['reqs'])}
 
